@@ -407,7 +407,113 @@ def c02_merge(inp):
     return {"reproduced": False, "detail": f"merge_mode_shapes equals the global shape in the first setup's scale on {tried} random layouts"}
 
 
-DRIVERS = {"c02_merge": c02_merge, "c09_run": c09_run, "c10_run": c10_run, "c10_fn": c10_fn}
+# ----------------------------------------------------------------------------------
+# C16: the real click handlers against a list-of-pairs model
+# ----------------------------------------------------------------------------------
+
+def c16_dialog(inp):
+    import itertools
+    import types
+    from collections import Counter
+    from pyoma2.support.sel_from_plot import SelFromPlot
+    plot = inp.get("plot", "SSI")
+    rng = np.random.RandomState(5)
+    Fn = np.array([[np.nan, 2.0, 2.01, 5.0, 1.0],
+                   [np.nan, 5.1, np.nan, 2.02, 5.05],
+                   [np.nan, np.nan, 8.0, 7.9, 2.03]])
+    freq = np.linspace(0, 10, 41)
+
+    def fresh():
+        o = object.__new__(SelFromPlot)
+        o.plot = plot
+        o.shift_is_held = False
+        o.sel_freq = []
+        o.algo = types.SimpleNamespace(result=types.SimpleNamespace(Fn_poles=Fn.copy(), freq=freq.copy(), Lab=np.zeros(Fn.shape, int),
+                                                                    S_val=np.ones((2, 2, 41))),
+                                       run_params=types.SimpleNamespace(ordmin=0, ordmax=4, step=1), fs=20.0)
+        o.freqlim = (0.0, 10.0)
+        o.hide_poles = 1
+        o.show_legend = 0
+        if plot == "FDD":
+            o.freq_ind = []
+        else:
+            o.pole_ind = []
+        o.plot_stab = lambda *a, **k: None
+        o.plot_svPSD = lambda *a, **k: None
+        return o
+    ev = lambda b, x, y: types.SimpleNamespace(button=b, xdata=x, ydata=y, key="shift")     # noqa: E731
+    picks = [(5.02, 3.2), (2.0, 1.1), (1.2, 3.9), (7.0, 2.6)]
+    acts = [("pick", p) for p in picks] + [("desel_one", None), ("desel_near", 2.3), ("desel_near", 6.0), ("noshift_pick", picks[0])]
+
+    def model_pick(x, y):
+        if plot == "FDD":
+            k = int(np.argmin(np.abs(freq - x)))
+            return (float(freq[k]), None)
+        col = int(np.argmin(np.abs(np.arange(Fn.shape[1]) - y)))
+        s_ = int(np.nanargmin(np.abs(Fn[:, col] - x)))
+        return (float(Fn[s_, col]), col)
+    checked = 0
+    for L in (1, 2, 3, 4):
+        for seq in itertools.product(range(len(acts)), repeat=L):
+            if L == 4 and checked > 4000:
+                break
+            o = fresh()
+            o.on_key_press(types.SimpleNamespace(key="shift"))
+            model = []          # list of admissible multisets (Counter) - deselect-one may remove any entry
+            states = [Counter()]
+            desc = []
+            try:
+                for a in seq:
+                    kind, arg = acts[a]
+                    desc.append(f"{kind}{arg if arg is not None else ''}")
+                    click = o.on_click_FDD if plot == "FDD" else (lambda e: o.on_click_SSI(e, plot))
+                    if kind == "pick":
+                        click(ev(1, arg[0], arg[1]))
+                        pr = model_pick(*arg)
+                        states = [st + Counter([pr]) for st in states]
+                    elif kind == "noshift_pick":
+                        o.on_key_release(types.SimpleNamespace(key="shift"))
+                        click(ev(1, arg[0], arg[1]))
+                        o.on_key_press(types.SimpleNamespace(key="shift"))
+                    elif kind == "desel_one":
+                        click(ev(3, 0.0, 0.0))
+                        new = []
+                        for st in states:
+                            if not st:
+                                new.append(st)
+                            for k_ in st:
+                                t = st.copy()
+                                t[k_] -= 1
+                                new.append(+t)
+                        states = new
+                    else:
+                        click(ev(2, arg, 1.0))
+                        new = []
+                        for st in states:
+                            if not st:
+                                new.append(st)
+                                continue
+                            dmin = min(abs(k_[0] - arg) for k_ in st)
+                            for k_ in st:
+                                if abs(abs(k_[0] - arg) - dmin) < 1e-12:
+                                    t = st.copy()
+                                    t[k_] -= 1
+                                    new.append(+t)
+                        states = new
+                    idx = o.freq_ind if plot == "FDD" else o.pole_ind
+                    got = Counter((float(f), None if plot == "FDD" else int(i)) for f, i in zip(o.sel_freq, idx if plot != "FDD" else [None] * len(o.sel_freq)))
+                    if len(o.sel_freq) != len(idx):
+                        return {"reproduced": True, "detail": f"{plot} dialog: lists of different length after {desc}"}
+                    if got not in states:
+                        return {"reproduced": True, "detail": f"{plot} dialog after {desc}: selection handed over {sorted(got.elements(), key=str)} "
+                                                              f"but the still-selected (frequency, order) pairs are {sorted(states[0].elements(), key=str)}"}
+            except Exception as e:      # noqa: BLE001
+                return {"reproduced": True, "detail": f"{plot} dialog: {type(e).__name__} ({e}) during {desc}"}
+            checked += 1
+    return {"reproduced": False, "detail": f"{plot} dialog agrees with the list-of-pairs model on {checked} action sequences (length <= 4)"}
+
+
+DRIVERS = {"c16_dialog": c16_dialog, "c02_merge": c02_merge, "c09_run": c09_run, "c10_run": c10_run, "c10_fn": c10_fn}
 
 
 def main():
